@@ -339,6 +339,8 @@ Proof.
     destruct (find_uid isuid c (p_uids (o_key ob))) as [j|] eqn:F; auto.
     destruct (certify_ok cert); auto. simpl. destruct (find_uid_spec _ _ _ _ F) as [u [Hn [E1 E2]]].
     eapply good_attach; eauto. unfold uid_sig_ok. simpl. rewrite E1, E2. apply verifies_sign.
+  - (* third-party direct-key certification *) destruct (nth_error w by_) as [cert|]; auto. apply upd_good; auto. intros ob Hg.
+    destruct (certify_ok cert); auto. simpl. apply good_with_sigs; auto; [discriminate | apply verifies_sign].
   - (* revoke uid *) apply upd_good; auto. intros ob Hg. destruct (find_uid isuid c (p_uids (o_key ob))) as [j|] eqn:F; auto.
     destruct (revoke_ok ob); auto. simpl. destruct (find_uid_spec _ _ _ _ F) as [u [Hn [E1 E2]]].
     eapply good_attach; eauto. unfold uid_sig_ok. simpl. rewrite E1, E2. apply verifies_sign.
